@@ -34,7 +34,7 @@ def handle (op : String) (args : List String) : String :=
   | "ws", [h] =>
     match bytesOfHex h with
     | none => "bad-op"
-    | some s => "ok " ++ hexOfBytes (writeString s)
+    | some s => "ok " ++ hexOfBytes (writeStringGo s)
   | "wu32", [h] => match bitsArg 4 h with
     | some v => "ok " ++ hexOfBytes (formatUint v)
     | none => "bad-op"
